@@ -25,7 +25,7 @@ CLAIMS.update({
         text='Static: one Task appended and mapped per node of topological_sort(graph) on every path of the '
              'node loop; every Task argument is shown to come from the right node/edge attribute of the '
              'workflow graph; the plan graph is relabel_nodes(graph, mapping); predecessor/successor queries '
-             'call the graph in their own role; Task.__init__ stores every planned value as given (G5); Task.id is never rewritten and readers of the plan (scheduler, algorithms) read the task list the plan was built with. Holds for every DAG because the rule is about the code shape.',
+             'call the graph in their own role; Task.__init__ and WorkflowPlan.__init__ store every planned value / the task list as given (G5: no re-sorting or filtering of the topological list); Task.id is never rewritten and readers of the plan (scheduler, algorithms) read the task list the plan was built with. Holds for every DAG because the rule is about the code shape.',
         note='Trusts the documented networkx API; BatchPlanning only (SHADOWPlanning needs the absent shadow library).',
         ref='DESIGN.md section 4, C14'),
     'C16': dict(
@@ -40,13 +40,13 @@ CLAIMS.update({
         text='Static: every machine the plan-following algorithm proposes for task t is the machine with id '
              't.allocated_machine_id; the planned machine is rewritten only by Task itself at the scheduler\'s '
              'request; the (task, machine) pair is passed unchanged from scheduler to cluster to do_work; the id table is '
-             '{m.id: m for every machine m} and get_machine_from_id reads it; C02.P2 is adopted (machines leave a busy pool by identity).',
+             '{m.id: m for every machine m} and get_machine_from_id reads it; no Scheduler method adds a pair to a schedule itself; C02.P2 is adopted (machines leave a busy pool by identity).',
         note='Does not decide that the planned machine eventually becomes free (liveness).',
         ref='DESIGN.md section 4, C17'),
     'C10': dict(
         technique='package-wide determinism lint: set-typed dataflow, RNG seeding, clock/identity sinks, repr',
         text='Static lint over all topsim modules: order-sensitive iteration over hash-ordered sets (set-typedness '
-             'propagated through call sites), unseeded generators, wall-clock/id() flows outside the excluded '
+             'propagated through call sites; a sort key is total only when it is the unique id itself), unseeded generators and generators kept in object state, wall-clock/id() flows outside the excluded '
              'timing sinks (followed through locals), seeds that are not the constructor argument, containers shared between '
              'instances or calls (class-level mutables, mutable defaults) and address-bearing text of algorithm objects are each reported. Given SimPy\'s '
              'deterministic queue these are the only sources that can make two runs differ.',
@@ -56,7 +56,7 @@ CLAIMS.update({
         technique='sibling-agreement and path-dominance rules over the delay ladder; provenance of the returned delay',
         text='Static: every distribution branch must draw an array from default_rng(self.seed) and use the degree '
              'through .value; the returned value is an element of sample[sample > mean] or the runtime; the empty '
-             'selection is guarded; degree 0 returns before any draw; do_work flags lengthened tasks, the scheduler examines every task of the plan (the loop is not left early), nothing but '
+             'selection is guarded; degree 0 returns before any draw; do_work flags lengthened tasks (every path compares the duration as it stands - not a stale copy - with the delayed duration), the scheduler examines every task of the plan (the loop is not left early and stands under no further condition), nothing but '
              'Task.__init__ ever lowers delay_flag, and the scheduler reports DELAYED. The uniform branch is a recorded known finding.',
         note='Trusts numpy Generator semantics; distribution values themselves are not decided.',
         ref='DESIGN.md section 4, C15'),
@@ -82,14 +82,14 @@ CLAIMS.update({
              'L3 batch partitions are released at workflow end (release judged by its effects); L4 every [-1]/pop on a tier stored list and every '
              'free-list remove is dominated by its precondition; L6 an algorithm takes a machine off its per-round free list only when it proposes it; '
              'L12 an algorithm drawing from the ready pool puts the successors of every proposed task into it (taint flow); L13 no process loop is dead (test constant false or contradicting the guards before it); L10/L11 every attribute and name read in a function reachable from the simulation entry points has a definition that can precede the read (else AttributeError/NameError); '
-             'L5/L7/L8 adopt the life-cycle, typestate, reservation-return and pending-volume rules of C08, C04, C09, C18.',
+             'L5/L7/L8/L14/L16 adopt the life-cycle, typestate, reservation-return, pending-volume, transfer-wait, ready-test and transfer-slot rules of C08, C04, C09, C18, C03.',
         note='Each clause is necessary: its violation makes a feasible configuration block forever or raise. Sufficiency is not claimed.',
         ref='DESIGN.md section 4, C05'),
     'C06': dict(
         technique='affine time-effect analysis of do_work per path + formula normal form + provenance',
         text='Static: calculate_runtime is max(floor(flops/cpu), floor(data/bandwidth)) in normal form; on every path of '
              'do_work the waits after the recorded start plus (aft - now) equal the total duration when it is >= 1 and '
-             '1 otherwise; the total flows only from the delay model applied to the duration; ingest tasks carry the '
+             '1 otherwise; the total flows only from the delay model applied to the duration, and the plain duration is returned only on paths that established that there is no delay model; ingest tasks carry the '
              'observation duration and no work; C14.G2 and C16.K2 are adopted.',
         note='Non-negative demands/speeds (int(a/b) = floor). SimPy timeout semantics trusted.',
         ref='DESIGN.md section 4, C06'),
@@ -140,7 +140,7 @@ CLAIMS.update({
         text='Static necessary conditions: hand-off stored->scheduled is one pop+append handing out the moved observation and queueing+spawn happen together; task '
              'status writes follow the life cycle with FINISHED only under the completion test; a submitted task leaves '
              'UNSCHEDULED at once, stale proposals are refused, duplicates in a round are skipped; finished tasks (only) leave '
-             'the plan; workflows close only when nothing is left; start() returns only when is_finished(); the scheduler releases reservations itself (C09.R4 adopted); the hot buffer hands out for processing the observation it moves to the cold tier (T10); the allocation loop of a workflow generates, submits and carries over its schedule every round and is left only when the workflow is reported finished (T12), a submitted proposal leaves the schedule (T8), the completion path writes FINISHED, the open-ended start() takes the run-to-completion loop, C08.A7 is adopted (T11).',
+             'the plan; workflows close only when nothing is left; start() returns only when is_finished(); the scheduler releases reservations itself (C09.R4 adopted); the hot buffer hands out for processing the observation it moves to the cold tier (T10); the allocation loop of a workflow generates, submits and carries over its schedule every round and is left only when the workflow is reported finished (T12), a submitted proposal leaves the schedule (T8), the completion path writes FINISHED, the open-ended start() takes the run-to-completion loop, C08.A7 is adopted (T11); the scheduler actor is alive and asks the buffer every round unconditionally (T14); pool scans are left early only for task-independent reasons (T15); the remaining-task filter is equivalent to not-FINISHED; C05.L4c is adopted (T16).',
         note='Liveness (every task is eventually offered) and final values are not decided.',
         ref='DESIGN.md section 4, C04'),
     'C07': dict(
@@ -148,7 +148,7 @@ CLAIMS.update({
         text='Static conservation clauses: every ingest step takes the data rate from the hot tier and adds the same rate to the '
              'observation; the countdown idiom runs the deposit duration times (sibling agrees); remove frees exactly '
              'total_data_size once for a resident observation; rate above the limit raises before the decrement; only the tiers '
-             'write current_capacity; an observation starts with no data (initial state); admission requires room for the whole volume in both tiers.',
+             'write current_capacity; an observation starts with no data (initial state); C18.V4/V5 and C04.T14 are adopted (a refused move changes nothing; the scheduler polls every round); admission requires room for the whole volume in both tiers.',
         note='The bounds 0 <= free <= capacity and "full at the end" are values and are not decided; admission does not reserve data still to come (DESIGN.md section 6).',
         ref='DESIGN.md section 4, C07'),
     'C08': dict(
@@ -156,7 +156,7 @@ CLAIMS.update({
         text='Static: begin_observation and the ingest spawn are dominated by is_ready(now, total_arrays - telescope_use computed '
              'per observation) and the scheduler check; each predicate\'s true verdict implies its required atoms (start time, arrays, '
              'WAITING; buffer and cluster checks, pending+demand<=max with reservation; available>=demand, ingest+demand<=max; room '
-             'for rate*duration in both tiers); ingest takes exactly demand machines; status and telescope_use follow their life cycle and start at zero / not-in-use (initial state) (writes through ast-level aliases included); C05.L1 and C06.W4 are adopted.',
+             'for rate*duration in both tiers); ingest takes exactly demand machines; status and telescope_use follow their life cycle and start at zero / not-in-use (initial state) (writes through ast-level aliases included); C05.L1 and C06.W4 are adopted; the per-observation loop of Telescope.run has no early exit (A14).',
         note='"Starts exactly on time when idle" and same-step admissions reading stale pools are not decided.',
         ref='DESIGN.md section 4, C08'),
     'C09': dict(
@@ -164,7 +164,7 @@ CLAIMS.update({
         text='Static: BatchProcessing proposes only machines from get_idle_resources(plan.id) when provisioned; provisioning is '
              'dominated by not-provisioned, partitions free and size >= minimum; the size is floor(machines/partitions) capped by '
              'availability or the per-observation split (never below its minimum); finished tasks return machines to the owner; '
-             'exclusivity and release are adopted from C01.N3/N5, C02.P2/P4, C05.L3 and C04.T2; reads of the reservation table are dominated by a membership test (C05.L4c); the reservation count starts at 0, is +1 per successful provisioning and -1 per dropped key (R7).',
+             'exclusivity and release are adopted from C01.N3/N5, C02.P2/P4, C05.L3 and C04.T2; reads of the reservation table are dominated by a membership test (C05.L4c); the reservation count starts at 0, is +1 per successful provisioning and -1 per dropped key (R7); C04.T3 is adopted (R8).',
         note='Counts at run time follow from these guards plus the counter rule; not enumerated.',
         ref='DESIGN.md section 4, C09'),
     'C18': dict(
